@@ -8,6 +8,7 @@ Static rules over the resolved program (clang front end facts; nothing is execut
  * E6.sweep-form             row update of each sweep equals the SOR / SSOR formula (omega placement), sweep set per class
  * E6.omega-scale            SSOR result scaled by omega*(2-omega) exactly once, SOR not scaled
  * E2.ilu-solve              solve_il / solve_du: direction, array family, row update
+ * E4.ilu-level-fold         ILU(p) level-of-fill recurrence: duplicate insertion folds with min, level = lev(L)+lev(U)+1, keep iff <= p
  * E8.ilu-init-order         set_struct -> factorize_symbolic -> alloc_data;  copy_data -> factorize_numeric; apply: L then DU
  * E7.filter-follows         every normal exit of apply() is preceded by _filter.filter_cor(out), nothing writes out afterwards
  * E7.output-defined         out is defined (not read) first on every path; E7.input-const: input never written
@@ -19,8 +20,8 @@ Static rules over the resolved program (clang front end facts; nothing is execut
  * E5.operator-form          Jacobi / Polynomial / Scale / Diagonal / Matrix: apply() as a symbolic linear operator equals
                              the documented one (omega once, Neumann recurrence, iteration count)
 
-Not decided: numerical equality with dense solves, ILU(p) fill pattern (factorize_symbolic) and the cursor/merge
-logic of factorize_numeric_il_du (only the algebraic form of its stores), CUDA back ends, Schwarz/Uzawa/Vanka.
+Not decided: numerical equality with dense solves, the cursor / sorted-insertion mechanics of factorize_symbolic/_insert
+(only the level recurrence is decided) and the cursor/merge logic of factorize_numeric_il_du (only the algebraic form of its stores), CUDA back ends, Schwarz/Uzawa/Vanka.
 """
 import os
 import re
@@ -906,6 +907,297 @@ def check_factor_form(ck, f, inst, blocked):
 
 
 # -------------------------------------------------------------------------------------------------
+# ILU(p) symbolic factorisation: level-of-fill recurrence  lev(i,k) = min over j of lev(i,j) + lev(j,k) + 1
+# -------------------------------------------------------------------------------------------------
+
+def check_level_fold(ck, fns, inst):
+    """_insert(): an entry that already exists keeps min(stored level, new level) on every path (duplicate insertion
+    folds with MIN; 'keep first' and 'overwrite' are both wrong), a new entry gets the new level;
+    factorize_symbolic(): the level handed to _insert is lev(L_ij) + lev(U_jk) + 1 of the two entries being merged,
+    entries with level <= p are inserted, pattern entries of A start with level 0"""
+    rule = "E4.ilu-level-fold"
+    ins = fns.get("_insert")
+    fs = fns.get("factorize_symbolic")
+    if ins is None or fs is None:
+        ck.incomplete(rule, "%s: _insert / factorize_symbolic vanished" % inst)
+        return
+    # ---------------- _insert ----------------
+    view = FnView(ins)
+    ps = ins.params
+    vec_params = [p for p in ps if "std::vector" in ins.type(p["t"])]
+    int_params = [p for p in ps if p not in vec_params]
+    if len(vec_params) != 2 or len(int_params) != 3:
+        ck.incomplete(rule, "%s::_insert: signature (idx, lvl, pos, col, level) not recognised" % inst)
+        return
+    idx_d, lvl_d = vec_params[0]["d"], vec_params[1]["d"]
+    pos_d, col_d, lev_d = [p["d"] for p in int_params]
+
+    def elem(n):
+        """('idx'|'lvl', index node) for vec[pos]"""
+        n = view.value(n)
+        if n.get("k") == "OpCall" and n.get("op") == "[]" and len(n.get("a", [])) == 2:
+            b = view.value(n["a"][0])
+            if b.get("k") == "Ref" and b.get("d") in (idx_d, lvl_d):
+                return ("idx" if b["d"] == idx_d else "lvl"), n["a"][1]
+        if n.get("k") == "MCall" and n.get("n") == "at" and len(n.get("a", [])) == 1:
+            b = view.value(n.get("obj") or {})
+            if b.get("k") == "Ref" and b.get("d") in (idx_d, lvl_d):
+                return ("idx" if b["d"] == idx_d else "lvl"), n["a"][0]
+        return None
+
+    def is_pos(n):
+        n = view.value(n)
+        return n.get("k") == "Ref" and n.get("d") == pos_d
+
+    def atom_lvl(n):
+        """'l' | 'old' | None for an operand of the level comparison"""
+        v = view.value(n)
+        if v.get("k") == "Ref" and v.get("d") == lev_d:
+            return "l"
+        e = elem(n)
+        if e and e[0] == "lvl" and is_pos(e[1]):
+            return "old"
+        return None
+
+    class Unknown(Exception):
+        pass
+
+    def value_forms(n):
+        """list of (constraints, 'l'|'old') the expression can evaluate to; min/max/?: are split into cases"""
+        v = view.value(n)
+        a = atom_lvl(n)
+        if a:
+            return [([], a)]
+        if v.get("k") == "Call" and v.get("callee", "").rsplit("::", 1)[-1] in ("min", "max") and len(v.get("a", [])) == 2:
+            x, y = atom_lvl(v["a"][0]), atom_lvl(v["a"][1])
+            if {x, y} == {"l", "old"}:
+                mn = v["callee"].endswith("min")
+                # min: l if l < old else old (ties irrelevant)
+                return [([("<", True)], "l" if mn else "old"), ([("<", False)], "old" if mn else "l")]
+        if v.get("k") == "Cond":
+            c = cmp_atom(v["c"])
+            out = []
+            for truth, br in ((True, v["then"]), (False, v["else"])):
+                for cs, val in value_forms(br):
+                    out.append(([(c, truth)] + cs if False else [(c[0], c[1] == truth)] + cs, val))
+            return out
+        raise Unknown("level value %s" % render(n))
+
+    def cmp_atom(n):
+        """(op, polarity) with op normalised to `l op old`; polarity True = as written"""
+        c = strip(n)
+        neg = False
+        while c.get("k") == "Un" and c.get("op") == "!":
+            neg = not neg
+            c = strip(c["e"])
+        if c.get("k") == "Bin" and c.get("op") in ("<", "<=", ">", ">="):
+            x, y = atom_lvl(c["lhs"]), atom_lvl(c["rhs"])
+            op = c["op"]
+            if (x, y) == ("old", "l"):
+                op = {"<": ">", ">": "<", "<=": ">=", ">=": "<="}[op]
+            elif (x, y) != ("l", "old"):
+                raise Unknown("condition %s" % render(n))
+            return (op, not neg)
+        raise Unknown("condition %s" % render(n))
+
+    def holds(op, order):
+        # order: -1 (l < old), 0 (l == old), +1 (l > old)
+        return {"<": order < 0, "<=": order <= 0, ">": order > 0, ">=": order >= 0}[op]
+
+    results = []     # (constraints [(op, truth)], final value 'l'|'old')
+
+    def run(stmts, cons, cur):
+        """returns list of (cons, cur) continuing after the statement list; emits at Return"""
+        states = [(cons, cur)]
+        for st in stmts:
+            nxt = []
+            for cs, cv in states:
+                k = st.get("k")
+                if k == "Block":
+                    nxt += run(st.get("s", []), cs, cv)
+                elif k == "Return":
+                    results.append((cs, cv))
+                elif k == "If":
+                    c = cmp_atom(st["c"])
+                    for truth, br in ((True, st.get("then")), (False, st.get("else"))):
+                        cs2 = cs + [(c[0], c[1] == truth)]
+                        if br is None:
+                            nxt.append((cs2, cv))
+                        else:
+                            nxt += run([br], cs2, cv)
+                elif k == "Assign" and elem(st["lhs"]) and elem(st["lhs"])[0] == "lvl":
+                    if not is_pos(elem(st["lhs"])[1]) or st.get("op") != "=":
+                        raise Unknown("store %s" % render(st))
+                    for cs3, val in value_forms(st["rhs"]):
+                        nxt.append((cs + cs3, val if val != "old" else cv))
+                elif k in ("Decl",):
+                    nxt.append((cs, cv))
+                else:
+                    for x in walk(st):
+                        if x.get("k") == "Ref" and x.get("d") == lvl_d:
+                            raise Unknown("statement %s touches the level array" % render(st))
+                    nxt.append((cs, cv))
+            states = nxt
+        return states
+    found = None
+    for n in walk(ins.body):
+        if n.get("k") == "If":
+            c = strip(n.get("c") or {})
+            if c.get("k") == "Bin" and c.get("op") == "==":
+                for x, y in ((c["lhs"], c["rhs"]), (c["rhs"], c["lhs"])):
+                    e = elem(x)
+                    yv = view.value(y)
+                    if e and e[0] == "idx" and is_pos(e[1]) and yv.get("k") == "Ref" and yv.get("d") == col_d:
+                        found = n
+    if found is None:
+        ck.incomplete(rule, "%s::_insert: the test `idx[pos] == col` for an existing entry was not found" % inst)
+    else:
+        try:
+            rest = run([found["then"]], [], "old")
+            if rest:
+                raise Unknown("the existing-entry branch does not end in a return")
+            problems = []
+            for cs, val in results:
+                for order, txt in ((-1, "new level < stored level"), (1, "new level > stored level")):
+                    if all(holds(op, order) == truth for op, truth in cs):
+                        want = "l" if order < 0 else "old"
+                        if val != want:
+                            problems.append("for %s the entry ends up with the %s level (%s)" % (txt, "new" if val == "l" else "stored",
+                                            "'keep first': a lower level found later is lost, the ILU(p) pattern gets too small for p >= 2" if order < 0 else "'overwrite': a higher level replaces a lower one"))
+            ck.ob(rule, "%s::_insert/existing entry" % inst, not problems and bool(results),
+                  "; ".join(sorted(set(problems))) if problems else "an entry found again keeps min(stored level, new level) on all %d paths" % len(results),
+                  ins.file, found.get("l"))
+        except Unknown as ex:
+            ck.incomplete(rule, "%s::_insert: existing-entry branch: %s" % (inst, ex))
+    # new entry: idx[pos] = col and lvl[pos] = level after the insertion
+    pushes = [e for e in stmts_of(view) if (view.byid.get(e) or {}).get("n") in ("push_back", "emplace_back", "insert", "resize")]
+    sets = {"idx": [], "lvl": []}
+    for e in stmts_of(view):
+        n = view.byid.get(e)
+        if n and n.get("k") == "Assign" and n.get("op") == "=" and elem(n["lhs"]) and is_pos(elem(n["lhs"])[1]):
+            which = elem(n["lhs"])[0]
+            rv = view.value(n["rhs"])
+            if rv.get("k") == "Ref" and rv.get("d") == (col_d if which == "idx" else lev_d):
+                sets[which].append(e)
+    if not pushes:
+        ck.incomplete(rule, "%s::_insert: no push_back/insert that creates the new entry found" % inst)
+    else:
+        bad = []
+        for which in ("idx", "lvl"):
+            if not sets[which] or view.flow_from(pushes[0], stop=set(sets[which]))[1]:
+                bad.append(which)
+        if bad and any((view.byid.get(e) or {}).get("n") in ("insert", "emplace") for e in stmts_of(view)):
+            ck.incomplete(rule, "%s::_insert: new entry created by vector::insert — not modelled" % inst)
+        else:
+            ck.ob(rule, "%s::_insert/new entry" % inst, not bad,
+                  "a new entry stores (column, level) = (col, l) at the insertion position" if not bad else
+                  "after the insertion %s[pos] is not set to the %s on every path" % (bad[0], "column" if bad[0] == "idx" else "new level"), ins.file, ins.line)
+    # ---------------- factorize_symbolic ----------------
+    v2 = FnView(fs)
+    p_d = fs.params[0]["d"] if fs.params else None
+
+    def vec_elem(n):
+        """(local vector name, index node) for local_vector[idx]"""
+        n = v2.value(n)
+        if n.get("k") == "OpCall" and n.get("op") == "[]" and len(n.get("a", [])) == 2:
+            b = strip(n["a"][0])
+            if b.get("k") == "Ref" and b.get("dk") == "local":
+                return b["n"], b["d"], n["a"][1]
+        return None
+    calls = [n for n in walk(fs.body) if n.get("k") in ("MCall", "Call") and (n.get("n") == "_insert" or (n.get("callee") or "").endswith("::_insert"))]
+    if not calls:
+        ck.incomplete(rule, "%s::factorize_symbolic: no call of _insert found" % inst)
+    seen = {}
+    for c in calls:
+        a = c.get("a", [])
+        if len(a) != 5:
+            ck.incomplete(rule, "%s::factorize_symbolic: _insert called with %d arguments" % (inst, len(a)))
+            continue
+        tgt_idx, tgt_lvl = strip(a[0]), strip(a[1])
+        # level argument as a sum of array elements and constants
+        terms = []
+        const = [0]
+        ok_form = [True]
+
+        def collect(n):
+            n = v2.value(n)
+            if n.get("k") == "Bin" and n.get("op") == "+":
+                collect(n["lhs"])
+                collect(n["rhs"])
+            elif n.get("k") == "Int":
+                const[0] += int(n["v"])
+            elif vec_elem(n):
+                terms.append(vec_elem(n))
+            else:
+                ok_form[0] = False
+        collect(a[4])
+        col = vec_elem(a[3])
+        if not ok_form[0] or col is None:
+            ck.incomplete(rule, "%s::factorize_symbolic: _insert(…, %s, %s): column / level arguments are not array elements and sums of level entries" % (inst, render(a[3]), render(a[4])))
+            continue
+        fam = lambda nm: "l" if nm.endswith("_l") else ("u" if nm.endswith("_u") else "?")
+        tf = fam(tgt_idx.get("n", ""))
+        key = "%s::factorize_symbolic/insert into %s" % (inst, tf.upper())
+        seen[key] = seen.get(key, 0) + 1
+        if seen[key] > 1:
+            key += "#%d" % seen[key]
+        problems = []
+        if fam(tgt_lvl.get("n", "")) != tf or "lvl" not in tgt_lvl.get("n", "") or "idx" not in tgt_idx.get("n", ""):
+            problems.append("index and level vectors %s / %s are not the pair of one factor" % (tgt_idx.get("n"), tgt_lvl.get("n")))
+        tl = sorted((fam(t[0]), "lvl" in t[0]) for t in terms)
+        if tl != [("l", True), ("u", True)] or const[0] != 1:
+            problems.append("level argument is %s; the level-of-fill recurrence is lev(L_ij) + lev(U_jk) + 1" % (" + ".join(["%s[%s]" % (t[0], render(t[2])) for t in terms] + ([str(const[0])] if const[0] else [])) or "0"))
+        else:
+            lt = [t for t in terms if fam(t[0]) == "l"][0]
+            ut = [t for t in terms if fam(t[0]) == "u"][0]
+            # the U level must belong to the entry whose column is inserted: same subscript as the column argument
+            if fam(col[0]) != "u" or "idx" not in col[0] or render(v2.value(col[2])) != render(v2.value(ut[2])):
+                problems.append("inserted column %s[%s] and U level %s[%s] do not belong to the same entry U_jk" % (col[0], render(col[2]), ut[0], render(ut[2])))
+        ck.ob(rule, key, not problems, "; ".join(problems) if problems else
+              "_insert(%s, %s, ·, %s[%s], %s[%s] + %s[%s] + 1)" % (tgt_idx.get("n"), tgt_lvl.get("n"), col[0], render(col[2]), lt[0], render(lt[2]), ut[0], render(ut[2])),
+              fs.file, c.get("l"))
+    # pruning: entries with level <= p are inserted
+    guards = []
+    for n in walk(fs.body):
+        if n.get("k") == "If":
+            c = strip(n.get("c") or {})
+            if c.get("k") == "Bin" and c.get("op") in ("<", "<=", ">", ">="):
+                l, r = v2.value(c["lhs"]), v2.value(c["rhs"])
+                lp, rp = (l.get("k") == "Ref" and l.get("d") == p_d), (r.get("k") == "Ref" and r.get("d") == p_d)
+                if lp != rp and (lp or rp) and any(x.get("k") == "Ref" and "lvl" in x.get("n", "") for x in walk(r if lp else l)):
+                    op = c["op"] if rp else {"<": ">", ">": "<", "<=": ">=", ">=": "<="}[c["op"]]
+                    guards.append((n, op))       # level op p
+    if len(guards) != 1:
+        ck.incomplete(rule, "%s::factorize_symbolic: %d comparisons of a computed level with the fill parameter p found (expected one)" % (inst, len(guards)))
+    else:
+        g, op = guards[0]
+        ins_ids = {c.get("i") for c in calls}
+        in_then = any(x.get("i") in ins_ids for x in walk(g.get("then") or {}))
+        in_else = any(x.get("i") in ins_ids for x in walk(g.get("else") or {}))
+        skips_then = any(x.get("k") in ("Continue", "Break") for x in walk(g.get("then") or {}))
+        if in_then and not in_else:
+            cond_insert = op                                   # inserted iff level op p
+        elif skips_then and not in_then and not in_else:
+            cond_insert = {">": "<=", ">=": "<", "<": ">=", "<=": ">"}[op]
+        else:
+            cond_insert = None
+        if cond_insert is None:
+            ck.incomplete(rule, "%s::factorize_symbolic: guard %s of the insertion not understood" % (inst, render(g)))
+        else:
+            ck.ob(rule, "%s::factorize_symbolic/level <= p" % inst, cond_insert == "<=",
+                  "entries are inserted iff level %s p (ILU(p) keeps all entries of level <= p)" % cond_insert, fs.file, g.get("l"))
+    # pattern entries of A start with level 0
+    for fam_ in ("l", "u"):
+        zero = [n for n in walk(fs.body) if n.get("k") == "MCall" and n.get("n") == "push_back" and strip(n.get("obj") or {}).get("n", "").endswith("lvl_" + fam_)
+                and v2.value(n["a"][0]).get("k") == "Int"]
+        if not zero:
+            ck.incomplete(rule, "%s::factorize_symbolic: initial level of the pattern entries of %s not found" % (inst, fam_.upper()))
+        else:
+            vals = sorted({int(v2.value(n["a"][0])["v"]) for n in zero})
+            ck.ob(rule, "%s::factorize_symbolic/level 0 of A in %s" % (inst, fam_.upper()), vals == [0], "entries of A enter %s with level %s" % (fam_.upper(), vals), fs.file, zero[0].get("l"))
+
+
+# -------------------------------------------------------------------------------------------------
 # wrappers
 # -------------------------------------------------------------------------------------------------
 
@@ -1007,6 +1299,7 @@ def run(tier):
     ck.rule("E8.numeric-refresh", "every member that apply() reads and that is computed from matrix values (Jacobi/Polynomial _inv_diag, ILU _data_l/_data_u/_data_d) is rewritten from the current matrix values on every path through init_numeric(); breaks when the matrix values change between two init_numeric calls", 19)
     ck.rule("E8.refresh-covers", "ILU copy_data_csr / copy_data_bcsr (the fresh value write of E8.numeric-refresh) assigns every slot of the factor arrays on every path of the row loop: _data_l[j] and _data_u[j] for every j of the factor's row segment [row_ptr[i], row_ptr[i+1]) in both the 'found in A' and the 'not in A' branch, _data_d[i] unconditionally; breaks for fill level p >= 1 on the second init_numeric (stale fill-in)", 6)
     ck.rule("E6.ilu-factor-form", "in-place (I+L)(D+U) factorisation, scalar and blocked: every store has one of the forms L_ij <- L_ij * D_jj^-1 (right multiplication), X <- X - L_ij * U_jk (X in L, D, U; L left of U), D_ii <- D_ii^-1, as (non-commutative, for blocks) normal forms; breaks for every block matrix whose blocks do not commute", 10)
+    ck.rule("E4.ilu-level-fold", "ILU(p) level of fill lev(i,k) = min_j lev(i,j) + lev(j,k) + 1: _insert folds a duplicate insertion with MIN on every path where the entry exists (neither keep-first nor overwrite) and stores (col, level) for a new entry; factorize_symbolic passes lev(L_ij) + lev(U_jk) + 1 of the two merged entries with the column of the same U entry, inserts iff level <= p, and starts the pattern of A at level 0; breaks for p >= 2 on patterns where an entry is reached through two paths of different level (pattern too small: LU does not match A on the level-p pattern)", 7)
     ck.rule("E8.symbolic-structure-only", "init_symbolic() (transitively) does not read matrix values (val, extract_diag, apply)", 11)
     ck.rule("E5.operator-form", "apply() evaluated symbolically as a linear operator equals the documented one: Jacobi w D^-1 (omega once), Scale w, Diagonal diag, Matrix M, Polynomial start value M~^-1 def, recurrence x <- (I - M~^-1 A) x + M~^-1 def, _m iterations; breaks for omega != 1 / every input", 9)
 
@@ -1091,6 +1384,11 @@ def run(tier):
                 check_factor_form(ck, fl["factorize_numeric_il_du"], "%s::factorize_numeric_il_du" % cshort, t == "ILUCoreBlocked")
             else:
                 ck.incomplete("E6.ilu-factor-form", "%s: factorize_numeric_il_du vanished" % cshort)
+    symb = [c for c in sorted(classes) if tmpl(c) == "ILUCoreSymbolic"]
+    if not symb:
+        ck.incomplete("E4.ilu-level-fold", "no instantiation of ILUCoreSymbolic found")
+    for cls in symb:
+        check_level_fold(ck, {n: v[0] for n, v in classes[cls].items()}, re.sub(r"FEAT::Solver::Intern::", "", cls))
     for k in set(IMPL.values()) - seen_kinds:
         ck.incomplete("E7.filter-follows", "no instantiation of the %s preconditioner found" % k)
     check_factories(ck)
